@@ -3,6 +3,8 @@
 (*   kind "visit"  : t, got  -> Judge(t, got)                                   *)
 (*   kind "replace": t, target (id of the k-th visited node), after (projected  *)
 (*                   tree after the run) -> after = Replace(t, target)          *)
+(*   mv = number of times the visitor was called on a node it had returned      *)
+(*        itself (a replacement is part of the result, it is never visited)     *)
 EXTENDS Traversal, Json, IOUtils
 Traces == JsonDeserialize(IOEnv.VERIF_TRACES)
 VARIABLES tid, done
@@ -17,8 +19,10 @@ Verdict(x) ==
   IF x.kind = "visit" THEN <<"visit", Judge(x.t, x.got)>>
   ELSE IF x.kind = "params" THEN <<"params", ParamJudge(x.t, x.got), ParamOrder(x.t)>>
   ELSE IF x.kind = "replace2"
-  THEN <<"replace2", IF Norm(x.after) = Norm(ReplaceMany(x.t, x.repl)) THEN "ok" ELSE "replace-scope">>
-  ELSE <<"replace", IF Norm(x.after) = Norm(Replace(x.t, x.target)) THEN "ok"
+  THEN <<"replace2", IF x.mv > 0 THEN "replacement-visited"
+                     ELSE IF Norm(x.after) = Norm(ReplaceMany(x.t, x.repl)) THEN "ok" ELSE "replace-scope">>
+  ELSE <<"replace", IF x.mv > 0 THEN "replacement-visited"
+                    ELSE IF Norm(x.after) = Norm(Replace(x.t, x.target)) THEN "ok"
                     ELSE IF Norm(x.after) = Norm(x.t) THEN "replace-ignored" ELSE "replace-scope">>
 
 Init == tid \in 1..Len(Traces) /\ done = FALSE
